@@ -24,7 +24,7 @@ import ast
 import re
 
 from ..astutil import calls, dotted, method_call, norm, walk
-from ..cfg import Resolver, build_cfg, handler_types, may_raise
+from ..cfg import Builder, Resolver, build_cfg, handler_types, inline_local, may_raise
 from ..flow import Defs, _Sel, origins
 from ..loader import ClassInfo, FunctionInfo
 from ..paths import normal_only
@@ -76,6 +76,31 @@ def rule_w1(chk: Check) -> list[FunctionInfo]:
     return sinks
 
 
+def _w2_may_raise(node_ast: ast.AST) -> bool:
+    """May evaluating this statement raise?  Stricter than "contains a call":
+    slicing a plain name, range()/len()/min()/max() of such, and the transport's
+    own write/close are treated as non-raising."""
+    import copy
+
+    class Strip(ast.NodeTransformer):
+        def visit_Subscript(self, n):  # noqa: N802
+            self.generic_visit(n)
+            if isinstance(n.slice, ast.Slice) and isinstance(n.value, ast.Name):
+                return ast.copy_location(ast.Name(id=n.value.id, ctx=ast.Load()), n)
+            return n
+
+        def visit_Call(self, n):  # noqa: N802
+            self.generic_visit(n)
+            if isinstance(n.func, ast.Name) and n.func.id in ("range", "len", "min", "max") and not any(isinstance(x, (ast.Call, ast.Subscript, ast.Await)) for a in n.args for x in ast.walk(a)):
+                return ast.copy_location(ast.Constant(value=0), n)
+            return n
+
+    probe = Strip().visit(copy.deepcopy(node_ast))
+    if isinstance(probe, ast.For):
+        probe = ast.Expr(value=probe.iter)
+    return may_raise(probe)
+
+
 def rule_w2(chk: Check, sinks: list[FunctionInfo]) -> None:
     chk.rule("W2", "between the first transport write and close() in a sink nothing that may raise is evaluated; each written path closes")
     for fi in sinks:
@@ -97,7 +122,7 @@ def rule_w2(chk: Check, sinks: list[FunctionInfo]) -> None:
                 n = g.nodes[nid]
                 if n.ast is None or n.kind not in ("stmt", "test", "with"):
                     continue
-                risky = may_raise(n.ast) if n.id != w.id else False
+                risky = _w2_may_raise(n.ast) if n.id != w.id else False
                 if n.id == w.id:
                     # arguments of the first write are evaluated before it writes
                     continue
@@ -279,8 +304,11 @@ def rule_w3_w4(chk: Check, sinks: list[FunctionInfo]) -> None:
     chk.rule("W3", "every header construction site yields `DD SP meta CRLF`: status proven 10..69, meta proven CR/LF-free and <= 1024 bytes (abstract string/int domain, path-sensitive)")
     chk.rule("W4", "on every path that writes a body, the status of that response's header is proven 2x")
     n_sites = 0
+    sink_names = {f.node.name for f in sinks}
     for fi in sinks:
-        g = build_cfg(chk.proj, fi)
+        # helpers extracted from the sink are inlined; other sinks are analysed on their own
+        pol = lambda caller, call, callee, depth, _s=sink_names: inline_local(caller, call, callee, depth) and callee.node.name not in _s  # noqa: E731
+        g = Builder(chk.proj, pol, 3).build(fi)
         defs = Defs(g)
         interp = Interp(chk.proj, fi)
         wnodes = nodes_calling(g, lambda c: method_call(c) is not None and dotted(method_call(c)[0]) == "self.transport" and method_call(c)[1] == "write")
@@ -295,7 +323,7 @@ def rule_w3_w4(chk: Check, sinks: list[FunctionInfo]) -> None:
                 watch_nodes.add(dn.id)
 
         for n in g.nodes:
-            if n.kind == "stmt" and isinstance(n.ast, (ast.Assign, ast.AnnAssign, ast.AugAssign)):
+            if n.kind == "stmt" and isinstance(n.ast, (ast.Assign, ast.AnnAssign, ast.AugAssign, ast.Return)):
                 watch_nodes.add(n.id)
 
         def watch(node, _wn=watch_nodes):
@@ -356,11 +384,20 @@ def rule_w3_w4(chk: Check, sinks: list[FunctionInfo]) -> None:
                 else:
                     bad_hdr[key] = why
             for body in writes_on_path[1:]:
-                st_body = seen_state.get(body.id, st_end)
                 stv = status
                 if status_expr is not None and hdr_def is not None and not _reassigned(path, hdr_def, body, status_expr):
-                    # same variable, later knowledge (e.g. refined by the is_success test)
-                    v = interp.eval(status_expr, st_body)
+                    # same variable, later knowledge (e.g. refined by the is_success
+                    # test): the last recorded state of the activation that built the
+                    # header, before this body write
+                    st_body = None
+                    for node, _v, stt_ in recs:
+                        if node.id == body.id:
+                            break
+                        if node.stack == hdr_def.stack:
+                            st_body = stt_
+                    if body.stack == hdr_def.stack:
+                        st_body = seen_state.get(body.id, st_body)
+                    v = interp.eval(status_expr, st_body) if st_body is not None else None
                     if isinstance(v, IntV):
                         stv = v
                 if stv is None or not stv.within(20, 29):
@@ -435,7 +472,7 @@ def rule_w5(chk: Check) -> None:
         chk, "W5", {"write-after-close", "second-header", "half-response", "orphan"},
         "exactly one response over all activation sequences",
     )
-    machine_floor(chk, "W5", mach, write=3, close=2, pending=2, cancel=3)
+    machine_floor(chk, "W5", mach, write=2, close=1, pending=1, cancel=1)
 
 
 def rule_w6(chk: Check) -> None:
